@@ -93,7 +93,7 @@ def evaluate(cases, results, shard=120):
             continue
         impl_ok = r.get('decode') == 'ok' and r.get('eq') and r.get('reenc') == r['cbor']
         if not impl_ok:
-            if 'cost_models' in r.get('flags', []) and r.get('decode') == 'DeserializeException':
+            if 'cost_models' in r.get('flags', []) and r.get('decode') in ('DeserializeException', 'Other:AttributeError'):
                 ofail[i] = 'cost-models-bare-dict'
             else:
                 ofail[i] = KNOWN_RETYPED if retyped_region(r) and r.get('decode') == 'ok' and r.get('reenc') == r['cbor'] else 'roundtrip'
